@@ -306,8 +306,64 @@ def job_fit_lags(tier):
     return out
 
 
+def job_krige_fit(tier):
+    """Krige(fit_variogram=True) on a lat-lon model: the empirical variogram is estimated with latlon=True and the model's
+    geo_scale (so that its lags are in the unit the model fit reads), and what it returns goes to the model fit unchanged"""
+    gs = _setup()
+    import gstools.krige.base as kb
+
+    T = core.tier_timeout(tier)
+    out = []
+    R = real("R")
+    wv = dict(R=R)
+    rb = ("krigefit", lambda v: {"values": v})
+
+    def run():
+        sym.assume(R > 0)
+        seen = {}
+        marker = (rnp.array([1.0, 2.0]), rnp.array([0.3, 0.5]))
+
+        def spy_vario(pos, field, *a, **kw):
+            seen["vario"] = (a, dict(kw), rnp.array(pos, dtype=object).copy())
+            return marker
+
+        m = gs.Gaussian(latlon=True, geo_scale=R, var=1.0, len_scale=1.0)
+
+        class Done(Exception):
+            pass
+
+        def spy_fit(*a, **kw):
+            seen["fit"] = (a, dict(kw))
+            raise Done()  # (the rest of the construction -- the kriging matrix -- is C05's subject)
+
+        m.fit_variogram = spy_fit
+        kb.vario_estimate = spy_vario
+        cp = rnp.array([[10.0, 20.0, 30.0], [5.0, 15.0, 40.0]])
+        try:
+            gs.krige.Ordinary(m, cp, [1.0, 2.0, 0.5], fit_variogram=True)
+        except Done:
+            pass
+        return seen, marker
+
+    p, err = _single(run, "C13/krige_fit")
+    out += err
+    if p:
+        seen, marker = p.out
+        a, kw, pos = seen.get("vario", ((), {}, None))
+        ok_ll = kw.get("latlon") is True and not a
+        out.append(rec("C13/krige_fit/variogram estimated with latlon=True", "unsat" if ok_ll else "sat", vacuity="sat", witness={}, replay={"kind": "krigefit", "inputs": rb[1]({})}, detail=str({k_: str(v_)[:30] for k_, v_ in kw.items()})))
+        if "geo_scale" in kw:
+            out.append(prove("C13/krige_fit/variogram estimated with the model's geo_scale", p.conds, lift(kw["geo_scale"]) == R.e, T, witness_vars=wv, replay=rb))
+        else:
+            out.append(prove("C13/krige_fit/variogram estimated with the model's geo_scale (not passed: default 1)", p.conds, R.e == 1, T, witness_vars=wv, replay=rb, vacuity=False))
+        fa, fkw = seen.get("fit", ((), {}))
+        ok_f = len(fa) >= 2 and fa[0] is marker[0] and fa[1] is marker[1]
+        out.append(rec("C13/krige_fit/estimated lags and values go to the model fit unchanged", "unsat" if ok_f else "sat", vacuity="sat", witness={}, replay={"kind": "krigefit", "inputs": rb[1]({})}))
+    return out
+
+
 def jobs(tier, seed):
-    js = [Job("sphere", job_sphere, tier), Job("roundtrip", job_roundtrip, tier), Job("model", job_model, tier), Job("fitlags", job_fit_lags, tier)]
+    js = [Job("krigefit", job_krige_fit, tier), Job("sphere", job_sphere, tier), Job("roundtrip", job_roundtrip, tier), Job("model", job_model, tier), Job("fitlags", job_fit_lags, tier)]
     for d in (2, 3, 4):
         js.append(Job(f"temporal{d}", job_temporal, d, tier))
     return js
@@ -319,6 +375,35 @@ def jobs(tier, seed):
 
 def _g(v, k, d):
     return float(v[k]) if v.get(k) is not None else d
+
+
+def replay_krigefit(inputs):
+    """the fitted length scale of Krige(fit_variogram=True) does not depend on the length unit (up to the unit itself)"""
+    import warnings
+
+    import numpy as np
+
+    warnings.simplefilter("ignore")
+    import gstools as gs
+
+    v = inputs.get("values") or {}
+    R = abs(_g(v, "R", 6371.0))
+    if R == 0 or abs(R - 1) < 1e-9:
+        R = 6371.0
+    rng = np.random.RandomState(3)
+    lat, lon = rng.uniform(40, 50, 60), rng.uniform(0, 15, 60)
+    truth = gs.Gaussian(latlon=True, geo_scale=gs.KM_SCALE, var=1.0, len_scale=400.0)
+    val = gs.SRF(truth, seed=11)((lat, lon))
+    res = []
+    for scale in (1.0, R):
+        m = gs.Gaussian(latlon=True, geo_scale=scale, var=1.0, len_scale=0.1 * scale)
+        try:
+            gs.krige.Ordinary(m, (lat, lon), val, fit_variogram=True)
+        except Exception as e:  # the fit may fail on garbage lags
+            return False, f"geo_scale={scale}: {e}"
+        res.append(m.len_scale / scale)
+    ok = np.isclose(res[0], res[1], rtol=5e-2)
+    return bool(ok), f"fitted len_scale / geo_scale for geo_scale 1 and {R}: {res}"
 
 
 def replay_sphere(inputs):
@@ -445,4 +530,4 @@ def replay_fitlags(inputs):
     return bool(ok), f"{v} lags={xd}"
 
 
-REPLAY = {"sphere": replay_sphere, "roundtrip": replay_roundtrip, "model": replay_model, "temporal": replay_temporal, "fitlags": replay_fitlags}
+REPLAY = {"krigefit": replay_krigefit, "sphere": replay_sphere, "roundtrip": replay_roundtrip, "model": replay_model, "temporal": replay_temporal, "fitlags": replay_fitlags}
